@@ -393,7 +393,8 @@ func (k Keeper) RaiseAndResolveChallenge(ctx sdk.Context, params *ChallengeParam
 	}
 	// check Task
 	if hex.EncodeToString(taskInfo.Hash) != hex.EncodeToString(params.TaskHash) {
-		return errorsmod.Wrap(err, fmt.Sprintf("error Task hasn't been responded to yet: %s", params.TaskContractAddress))
+		// err is nil here, and errorsmod.Wrap(nil, ...) is nil: wrap a real error instead of reporting success
+		return errorsmod.Wrap(types.ErrHashValue, fmt.Sprintf("the task hash does not match the task: %s", params.TaskContractAddress))
 	}
 	// check Task result
 	res, err := k.GetTaskResultInfo(ctx, params.OperatorAddress.String(), params.TaskContractAddress.String(),
